@@ -313,4 +313,38 @@ VH_GROUP(stdfill)
     std_of<gil::rgb8_pixel_t, true>(ctx, "rgb8", 5, std::min(PX, 4L), std::min(SH, 3L));
 }
 
+// The histogram's key type is NARROWER than the view's channel type, and the bin width is chosen so that every bin index fits the
+// key type: the bin of a sample v is v / bin_width (the division happens on the sample, not on a sample already narrowed to the key
+// type).  gray16 into histogram<unsigned char> with bin width 256; gray8 (values above 127) into histogram<signed char> with bin
+// width 2; free function (sparse and dense) and member fill.
+VH_GROUP(narrow_keys)
+{
+    if (!ctx.take()) return;
+    auto run = [&](auto px_tag, auto hist_tag, const char* name, std::vector<long> const& vals, long bw) {
+        using Px = decltype(px_tag); using H = decltype(hist_tag);
+        gil::image<Px, false> img(int(vals.size()), 1);
+        for (size_t i = 0; i < vals.size(); ++i) gil::view(img)(int(i), 0)[0] = typename gil::channel_type<Px>::type(vals[i]);
+        std::map<long, long> want; for (long v : vals) ++want[v / bw];
+        for (int mode = 0; mode < 3; ++mode)
+        {
+            H h;
+            if (mode == 0) gil::fill_histogram(gil::const_view(img), h, size_t(bw));
+            else if (mode == 1) gil::fill_histogram(gil::const_view(img), h, size_t(bw), false, false);
+            else h.fill(gil::const_view(img), size_t(bw));
+            std::map<long, long> got; for (auto const& kv : h) if (kv.second != 0) got[long(std::get<0>(kv.first))] += long(kv.second);
+            ++ctx.evaluations; ++ctx.nontrivial;
+            if (got != want)
+            {
+                std::string g, w2; for (auto& kv : got) g += std::to_string(kv.first) + ":" + std::to_string(kv.second) + " "; for (auto& kv : want) w2 += std::to_string(kv.first) + ":" + std::to_string(kv.second) + " ";
+                ctx.fail(std::string("narrow_keys/") + name + "/bw=" + std::to_string(bw) + (mode == 0 ? "/sparse" : mode == 1 ? "/dense" : "/member"), "bin!=value/bin_width", "got " + g + "expected " + w2);
+            }
+        }
+        ++ctx.witness["key_type_narrower_than_channel"];
+    };
+    run(gil::gray16_pixel_t(), gil::histogram<unsigned char>(), "gray16>u8", {0, 255, 256, 300, 4660, 32768, 65279, 65535}, 256);
+    run(gil::gray16_pixel_t(), gil::histogram<unsigned char>(), "gray16>u8", {0, 511, 512, 1000, 65535 / 2, 65535}, 512);
+    run(gil::gray8_pixel_t(), gil::histogram<signed char>(), "gray8>s8", {0, 1, 127, 128, 200, 254, 255}, 2);
+    run(gil::gray8_pixel_t(), gil::histogram<signed char>(), "gray8>s8", {0, 3, 130, 255}, 4);
+}
+
 VH_MAIN
